@@ -416,6 +416,38 @@ func (eng *Engine) initIntrinsics() {
 	opaqueStr := func(tag string) Intrinsic {
 		return func(ex *Exec, _ *frame, _ *ssa.Function, a []Value) Value { return StrV{s: "\x00" + tag} }
 	}
+	// fmt.Errorf: an error with opaque text; %w keeps the wrapped error reachable by Unwrap
+	in["fmt.Errorf"] = func(ex *Exec, _ *frame, fn *ssa.Function, a []Value) Value {
+		format := ""
+		if s, ok := a[0].(StrV); ok && s.IsConcrete() {
+			format = s.Concrete()
+		}
+		fmtPkg := fn.Pkg
+		if strings.Contains(format, "%w") {
+			if args, ok := a[1].(SliceV); ok && args.ln > 0 {
+				c := ex.rd(args.c)
+				var wrapped Value
+				errIface := types.Universe.Lookup("error").Type().Underlying().(*types.Interface)
+				for i := 0; i < args.ln; i++ {
+					if iv, ok := c.v[args.off+i].(IfaceV); ok && iv.t != nil && ex.eng.implements(iv.t, errIface) {
+						wrapped = iv
+						break
+					}
+				}
+				if wt := fmtPkg.Type("wrapError"); wrapped != nil && wt != nil {
+					st := &Cont{v: []Value{StrV{s: "\x00fmt.Errorf"}, wrapped}}
+					return IfaceV{t: types.NewPointer(wt.Type()), v: ex.newObj(st)}
+				}
+			}
+		}
+		if ep := ex.eng.prog.ImportedPackage("errors"); ep != nil {
+			if et := ep.Type("errorString"); et != nil {
+				st := &Cont{v: []Value{StrV{s: "\x00fmt.Errorf"}}}
+				return IfaceV{t: types.NewPointer(et.Type()), v: ex.newObj(st)}
+			}
+		}
+		panic(Unsupported{"fmt.Errorf: errors.errorString not loaded"})
+	}
 	in["fmt.Sprintf"] = opaqueStr("fmt.Sprintf")
 	in["fmt.Sprint"] = opaqueStr("fmt.Sprint")
 	in["fmt.Sprintln"] = opaqueStr("fmt.Sprintln")
